@@ -129,8 +129,12 @@ class ArmEval:
 
     # -- expressions -------------------------------------------------------------------------
     def truth(self, v) -> bool:
-        if isinstance(v, Tok) or v is ARGS:
+        if v is ARGS:
+            return (self.shape.npos + len(self.shape.kws)) > 0    # the argument text is empty exactly for a call without arguments
+        if isinstance(v, Tok):
             return True
+        if isinstance(v, list):
+            return bool(v)
         if v is NONE:
             return False
         if isinstance(v, Def):
@@ -233,9 +237,12 @@ class ArmEval:
         if isinstance(n, ast.Subscript):
             base = self.ev(n.value, env)
             idx = self.ev(n.slice, env) if not isinstance(n.slice, ast.Slice) else UNK
-            if isinstance(base, tuple):
+            if isinstance(base, (tuple, list)):
                 if isinstance(idx, Def) and isinstance(idx.value, int):
-                    return base[idx.value]
+                    try:
+                        return base[idx.value]
+                    except IndexError:
+                        raise AbsErr("IndexError")
             if isinstance(base, ADict) and isinstance(idx, Def):
                 if idx.value in base.d:
                     return base.d[idx.value]
@@ -249,7 +256,9 @@ class ArmEval:
             return UNK
         if isinstance(n, ast.JoinedStr):
             return UNK
-        if isinstance(n, (ast.List, ast.Dict, ast.Set, ast.ListComp, ast.GeneratorExp, ast.BinOp)):
+        if isinstance(n, ast.List):
+            return [self.ev(e, env) for e in n.elts]          # an abstract list (mutable: append is modelled)
+        if isinstance(n, (ast.Dict, ast.Set, ast.ListComp, ast.GeneratorExp, ast.BinOp)):
             return UNK
         if isinstance(n, ast.Call):
             return self.call(n, env)
@@ -279,6 +288,17 @@ class ArmEval:
             if kw is not None:
                 return Tok("K", kw) if kw in self.shape.kws else NONE
             return Tok("P", pos) if pos < self.shape.npos else NONE
+        if isinstance(f, ast.Attribute) and f.attr == "append" and isinstance(f.value, ast.Name) and isinstance(env.get(f.value.id), list) and len(n.args) == 1:
+            env[f.value.id].append(self.ev(n.args[0], env))
+            return NONE
+        if cn == "enumerate" and n.args:
+            seq = self.ev(n.args[0], env)
+            if isinstance(seq, Def) and isinstance(seq.value, (tuple, list)):
+                seq = tuple(NONE if x is None else Def(x) for x in seq.value)
+            if isinstance(seq, (tuple, list)):
+                start = 0
+                return tuple((Def(i + start), x) for i, x in enumerate(seq))
+            return UNK
         if isinstance(f, ast.Attribute) and f.attr in ("strip", "lower", "upper", "rstrip", "lstrip"):
             base = self.ev(f.value, env)
             if base is NONE:
@@ -369,6 +389,10 @@ class ArmEval:
                     j = i - (len(params) - nd)
                     if j >= 0 and i >= len(call.args) and not any(k.arg == p_ for k in call.keywords):
                         new[p_] = self.ev(fn.args.defaults[j], {})
+            given_kw = {k.arg for k in call.keywords if k.arg}
+            for a_, d_ in zip(fn.args.kwonlyargs, fn.args.kw_defaults):
+                if a_.arg not in given_kw:
+                    new[a_.arg] = self.ev(d_, {}) if d_ is not None else UNK
             try:
                 r = self.run(fn.body, new)
             except _Ret as rr:
@@ -472,8 +496,12 @@ class ArmEval:
             elif isinstance(it, tuple):
                 seq = list(it)
             if seq is None:
-                # loops over evaluated values (pattern/bitmap entries): body is value-level, not binding
+                # loops over evaluated values (pattern/bitmap entries): body is value-level, not binding; lists it
+                # appends to are no longer known element by element
                 self.assign(st.target, UNK, env)
+                for c in ast.walk(st):
+                    if isinstance(c, ast.Call) and isinstance(c.func, ast.Attribute) and c.func.attr in ("append", "extend", "insert") and isinstance(c.func.value, ast.Name) and isinstance(env.get(c.func.value.id), list):
+                        env[c.func.value.id] = UNK
                 return "fall"
             for item in seq:
                 self.assign(st.target, item, env)
